@@ -14,6 +14,8 @@ def run(chk, tier):
     # attribute of the <field>, which the validator lets the encoding override)
     import gflow
     gflow.check_declared_presence(chk)
+    import ghaz
+    ghaz.check_presence_rules(chk)      # what get_actual_presence may yield per kind of encoding
     e4.check(chk, ("visit", "cursor"), tier)
     for name in (["vlayout", "vprims_le"] + (["vheaders", "test_schema", "vnames"] if tier == "thorough" else [])):
         spec_visit.check(chk, lib_for(name))
